@@ -261,6 +261,18 @@ def run(world, rep, tier, only=None):
             rep.ob("C03.g", site(dop, "accepted v1 commit block resets the running checksum" + tag), not leak,
                    "every path through the jbd2_has_feature_checksum() arm that falls out of it (commit block accepted) stores "
                    "crc32_sum = ~0")
+        # ------------------------------------------------------------------ C03.h the log is a ring: a cursor is wrapped before its next use
+        # Every block number handed to jread() comes from a log cursor; after each advance of a cursor (one block or a
+        # whole descriptor's worth) the cursor is folded back into [j_first, j_last) before it is read again, copied,
+        # handed to a helper by address or returned through a pointer.
+        nadv = 0
+        for rf in [f for f in prog.functions() if f.file == dop.file]:
+            for a_, c, bad in ring_cursor_uses(rf, ("jread",), 2):
+                nadv += 1
+                rep.ob("C03.h", site(rf, "log cursor %s wrapped after `%s`%s" % (c, a_.text()[:30], tag)), bad is None,
+                       "every path from the advance at line %d to a use of %s passes `if (%s >= last) %s -= ...`%s" %
+                       (a_.line, c, c, c, "" if bad is None else "; reaches %s (line %d) unwrapped" % (bad.text()[:40], bad.line)))
+        rep.floor("C03.h log cursor advances" + tag, nadv, 4)
         # non-SCAN descriptor checksum failure fails the pass
         dv = [b for b in dop.blocks if dop.literal(b) and call_atom("jbd2_descriptor_block_csum_verify")(dop.literal(b)[0])]
         rep.ob("C03.c", site(dop, "descriptor checksum verified" + tag), bool(dv), "jbd2_descriptor_block_csum_verify controls a branch")
